@@ -277,8 +277,11 @@ def _mk_api_query(method, n_main, n_wasted):
         main0, wasted0, selfc = _setup_api(vm, P, n_main, n_wasted)
         exp_wasted = [t.fields[2] for _, t in main0.items if t.fields[1] == 2]
         exp_live = [t.fields[2] for _, t in main0.items if t.fields[1] != 2]
+        # the whole abstract tracker state is symbolic: auto-waste periodicity/counter and the options with the epoch db
+        vm.notes['aw'] = Cell(mk(P, 'AutoWaste', periodicity=vm.fresh(64, 'p0'), counter=vm.fresh(64, 'c0')), 'aw')
+        if method != 'skip_epochs_for_scene':
+            vm.notes['opts'] = Cell(sort_options(P, vm, sym_epoch_entries(vm, 1), usize(1)), 'opts')
         if method == 'set_auto_waste':
-            vm.notes['aw'] = Cell(mk(P, 'AutoWaste', periodicity=vm.fresh(64, 'p0'), counter=vm.fresh(64, 'c0')), 'aw')
             p = vm.fresh(64, 'p')
             vm.exec_fn(fn, [Ref(selfc), p], API_ENV)
             aw = vm.notes['aw'].v
@@ -340,7 +343,124 @@ fn replay() {
 
 
 def _replay_shard_stats(cex, v, vm):
-    return REPLAY_SHARD_STATS
+    return REPLAY_SHARD_STATS + REPLAY_LIFECYCLE.replace("fn replay()", "fn replay_lifecycle()")
+
+
+# Native lifecycle sweep: the TrackerAPI queries run on an ABSTRACT tracker (two abstract stores, symbolic statuses), so
+# their counterexamples carry no concrete history. The replay therefore drives the real Sort tracker through
+# deterministic pseudo-random operation sequences (predict with detections at well separated positions / empty predict /
+# skip_epochs / wasted / statistics / idle_tracks) for several auto-waste periodicities, idle limits and shard counts
+# and compares every answer with the epoch rule of the property (a model of ~40 lines). It fails exactly when the real
+# tracker violates C03 on one of these histories.
+REPLAY_LIFECYCLE = r'''
+use similari::trackers::sort::simple_api::Sort;
+use similari::trackers::sort::PositionalMetricType;
+use similari::trackers::tracker_api::TrackerAPI;
+use similari::utils::bbox::BoundingBox;
+use std::collections::HashSet;
+
+#[derive(Clone, Debug)]
+struct MT { id: u64, pos: u32, last: usize, len: usize }
+
+fn lifecycle(periodicity: Option<usize>, max_idle: usize, shards: usize, seed: u64, steps: usize) {
+    let mut t = Sort::new(shards, 3, max_idle, PositionalMetricType::IoU(0.3), 0.0, None, 1.0 / 20.0, 1.0 / 160.0);
+    if let Some(p) = periodicity { t.set_auto_waste(p); }
+    let mut model: Vec<MT> = vec![];
+    let mut issued: HashSet<u64> = HashSet::new();
+    let mut epoch = 0usize;
+    let mut rng = seed.wrapping_mul(6364136223846793005).wrapping_add(1442695040888963407);
+    let ctx = format!("periodicity {:?} max_idle {} shards {} seed {}", periodicity, max_idle, shards, seed);
+    for step in 0..steps {
+        rng = rng.wrapping_mul(6364136223846793005).wrapping_add(1442695040888963407);
+        let op = (rng >> 33) % 8;
+        let arg = (rng >> 40) % 8;
+        match op {
+            0 | 1 | 2 | 3 => {
+                // predict with the detections selected by the bit mask `arg` (positions 0,1,2; 1000 units apart)
+                epoch += 1;
+                let positions: Vec<u32> = (0..3u32).filter(|p| op != 3 && (arg >> p) & 1 == 1).collect();
+                let dets: Vec<_> = positions.iter().map(|p| (BoundingBox::new(1000.0 * *p as f32, 0.0, 10.0, 20.0).into(), Some(*p as i64))).collect();
+                let recs = t.predict(&dets);
+                assert_eq!(recs.len(), dets.len(), "one record per detection ({} step {})", ctx, step);
+                for (p, r) in positions.iter().zip(recs.iter()) {
+                    assert_eq!(r.epoch, epoch, "record carries the current epoch ({} step {})", ctx, step);
+                    let cont = model.iter_mut().find(|m| m.pos == *p && epoch - m.last <= max_idle);
+                    match cont {
+                        Some(m) => {
+                            assert_eq!(r.id, m.id, "an unexpired track at the same place must be continued ({} step {})", ctx, step);
+                            m.last = epoch; m.len += 1;
+                            assert_eq!(r.length, m.len, "track length = number of attached detections ({} step {})", ctx, step);
+                        }
+                        None => {
+                            assert!(issued.insert(r.id), "an expired track must not be continued / ids are never reused: id {} ({} step {})", r.id, ctx, step);
+                            assert_eq!(r.length, 1, "a new track has length 1 ({} step {})", ctx, step);
+                            model.push(MT { id: r.id, pos: *p, last: epoch, len: 1 });
+                        }
+                    }
+                }
+            }
+            4 => { let n = 1 + (arg % 3) as usize; t.skip_epochs(n); epoch += n; }
+            5 => {
+                let got = t.wasted();
+                let mut got_ids: Vec<u64> = got.iter().map(|x| x.get_track_id()).collect();
+                got_ids.sort();
+                let mut exp: Vec<u64> = model.iter().filter(|m| m.last + max_idle < epoch).map(|m| m.id).collect();
+                exp.sort();
+                assert_eq!(got_ids, exp, "wasted() hands out exactly the tracks expired by the epoch rule, each once ({} step {})", ctx, step);
+                for x in &got {
+                    let m = model.iter().find(|m| m.id == x.get_track_id()).unwrap();
+                    assert_eq!(x.get_attributes().track_length, m.len, "handed-out track length ({} step {})", ctx, step);
+                }
+                model.retain(|m| !(m.last + max_idle < epoch));
+            }
+            6 => {
+                let mut idle: Vec<u64> = t.idle_tracks().iter().map(|r| r.id).collect();
+                idle.sort();
+                let mut exp: Vec<u64> = model.iter().filter(|m| m.last + max_idle >= epoch && m.last != epoch).map(|m| m.id).collect();
+                exp.sort();
+                // expired tracks not yet collected may or may not be listed by the store scan; the unexpired idle ones must be
+                for e in &exp { assert!(idle.contains(e), "idle_tracks lists every unexpired track not updated in the current epoch ({} step {})", ctx, step); }
+                for i in &idle { assert!(model.iter().any(|m| m.id == *i && m.last != epoch), "idle_tracks lists only tracks not updated in the current epoch ({} step {})", ctx, step); }
+            }
+            _ => {}
+        }
+        let active: usize = t.active_shard_stats().iter().sum();
+        let wasted: usize = t.wasted_shard_stats().iter().sum();
+        assert_eq!(active + wasted, model.len(), "active + wasted statistics account for every track not yet handed out ({} step {})", ctx, step);
+        let live_min = model.iter().filter(|m| m.last + max_idle >= epoch).count();
+        assert!(active >= live_min, "every unexpired track is in the live store ({} step {})", ctx, step);
+    }
+}
+
+#[test]
+fn replay() {
+    for seed in 0..6u64 {
+        for max_idle in [0usize, 1, 2] {
+            for shards in [1usize, 2] {
+                for periodicity in [Some(0usize), Some(1), Some(2)] { lifecycle(periodicity, max_idle, shards, seed, 120); }
+            }
+            lifecycle(None, max_idle, 2, seed, 420);
+        }
+    }
+}
+'''
+
+
+def _replay_lifecycle(cex, v, vm):
+    return REPLAY_LIFECYCLE
+
+
+def _replay_compat_c03(kind):
+    import C20
+    def render(cex, v, vm):
+        g = lambda n: cex_get(cex, n)
+        try:
+            order = g('max_idle')
+        except KeyError:
+            order = 1
+        return C20.COMPAT_REPLAY % dict(table="", max_idle=order, scene_a=g('scene_t'), scene_b=g('scene_c'), last_a=g('last_t'), last_b=g('last_c'),
+                                        xa="0.0f32", xb="1.0f32", ty='SortAttributes' if kind == 'sort' else 'VisualAttributes')
+    return render
 
 
 E = "similari::trackers::epoch_db::EpochDb::"
@@ -358,10 +478,10 @@ MIR = [
     MQ("c03_compatible_expired_sort", "quick", _mk_compat_expired('sort'),
        "SortAttributes::compatible: expired tracks never compatible with a current-epoch candidate; = same scene and gap <= max idle",
        "symbolic scenes/epochs/max_idle, both argument orders, empty constraint table", ["similari::trackers::sort::SortAttributes::compatible"],
-       spec_calls=_dist_override),
+       spec_calls=_dist_override, replay=_replay_compat_c03('sort')),
     MQ("c03_compatible_expired_visual", "quick", _mk_compat_expired('visual'),
        "VisualAttributes::compatible: same", "same", ["similari::trackers::visual_sort::track_attributes::VisualAttributes::compatible"],
-       spec_calls=_dist_override),
+       spec_calls=_dist_override, replay=_replay_compat_c03('visual')),
     MQ("c03_idle_lookup_sort", "quick", _mk_idle_lookup('sort'), "SortLookup::IdleLookup = same scene and last_updated != current epoch",
        "symbolic", ["similari::trackers::sort::SortLookup::lookup"]),
     MQ("c03_idle_lookup_visual", "quick", _mk_idle_lookup('visual'), "VisualSortLookup::IdleLookup = same", "symbolic",
@@ -373,5 +493,5 @@ for (m, tier, nm, nw) in [('auto_waste', 'quick', 2, 1), ('auto_waste', 'thoroug
     MIR.append(MQ("c03_api_%s_%d_%d" % (m, nm, nw), tier, _mk_api_query(m, nm, nw),
                   "TrackerAPI::%s over abstract stores" % m, "%d live tracks (status symbolic: Ready/Pending/Wasted/Err), %d collected" % (nm, nw),
                   [T + m] + ([T + "auto_waste", T + "get_main_store_wasted"] if m in ('wasted', 'skip_epochs_for_scene', 'auto_waste') else []),
-                  spec_calls=_api_calls, replay=_replay_shard_stats if m == 'wasted_shard_stats' else None,
+                  spec_calls=_api_calls, replay=_replay_shard_stats if m == 'wasted_shard_stats' else _replay_lifecycle,
                   key="wasted_shard_stats-reads-main-store" if m == 'wasted_shard_stats' else None))
